@@ -43,3 +43,39 @@ Theorem C20_session_leaves_the_expansions : forall c, zc_ss c <> 2%N -> zentries
   forall base, trun base (snd (session_run c z holds)) = base ++ session_text c holds.
 Proof. exact session_leaves_the_expansions. Qed.
 Print Assumptions C20_session_leaves_the_expansions.
+
+(* ---- shift / altgr held by the user are restored afterwards ---- *)
+From KV Require Import Proofs.C20Mods.
+(* one press, whatever it does (pass through, partial chord, activation with backspaces, typing loop, smart space): if the
+   filter's flag for shift / altgr key k equals the key's state at the OS before, then after the events written the key is down
+   at the OS exactly if the user holds it, and the flag says so too.  Hypothesis: no expansion is typed with a shift/altgr key *)
+Theorem C20_press_restores_shift_and_altgr : forall c z osc k p,
+  is_mod k -> outputs_nomod c z ->
+  (zentries (zc_chords c) <> [] -> held k z = p) ->
+  down k p (snd (z_press c z osc)) = phys_press k osc p /\
+  (zentries (zc_chords c) <> [] -> held k (fst (z_press c z osc)) = phys_press k osc p).
+Proof. exact press_restores_mods. Qed.
+Print Assumptions C20_press_restores_shift_and_altgr.
+
+Theorem C20_release_keeps_shift_and_altgr : forall c z osc k p,
+  is_mod k -> (zentries (zc_chords c) <> [] -> held k z = p) ->
+  down k p (snd (z_release c z osc)) = phys_release k osc p /\
+  (zentries (zc_chords c) <> [] -> held k (fst (z_release c z osc)) = phys_release k osc p).
+Proof. exact release_restores_mods. Qed.
+Print Assumptions C20_release_keeps_shift_and_altgr.
+
+(* a whole run of presses, releases and ticks in which no tick is the forced reset (more than 10000 ticks without a key event):
+   at the end each shift / altgr key is down at the OS exactly if the user holds it *)
+Theorem C20_held_modifiers_are_restored : forall c k, is_mod k -> forall ops z p,
+  Ok20 c z -> (zentries (zc_chords c) <> [] -> held k z = p) -> no_forced_reset c z ops ->
+  down k p (snd (zrun c z ops)) = fold_left (phys_step k) ops p.
+Proof. exact held_modifiers_are_restored. Qed.
+Print Assumptions C20_held_modifiers_are_restored.
+
+(* the excluded class is a real one (known finding shift-held-past-reset): in the run "hold shift, 10001 ticks, d, g" with the
+   dictionary d+g -> "Dog" the user still holds shift at the end but it is up at the OS *)
+Theorem C20_held_shift_lost_after_forced_reset :
+  fold_left (phys_step 42) (ex20_ops 10001) false = true /\
+  down 42 false (snd (zrun ex20_cfg z_init (ex20_ops 10001))) = false.
+Proof. exact held_shift_lost_after_forced_reset. Qed.
+Print Assumptions C20_held_shift_lost_after_forced_reset.
